@@ -335,14 +335,6 @@ def check(prog, run):
     language_rule(prog, run)
     run.rule("R5", "metadata setters are independent: single-attribute setters update in place; only with_metadata(Metadata) replaces")
     setter_rule(prog, run)
-    run.rule("R7", "the crate's own caller (CLI mux command) never replaces the metadata wholesale after setting part of it: title, language and creation time given together all reach the file (C20.R2 ordering instances)")
-    from . import c15, c20
-    ub = prog.bin
-    mux = c20.fn(ub, "mux_command") if ub is not None else None
-    if mux is None:
-        run.bad("R7", "anchor mux_command", "CLI mux command not found")
-    else:
-        c20.order_rule(prog, c15._Map(run, {"R2": "R7"}), ub, ub.bodies[mux])
     run.rule("R4", "creation-date conversion: (year, month, day) expressions == proleptic Gregorian calendar on every day of a 400-year era (exhaustive evaluation of the extracted expressions), affine in the era")
     calendar_rule(prog, run)
     run.rule("R1", "udta layout: none when no item; else udta>meta(0)>hdlr(mdir)+ilst>items; name item = data(type=1, locale=0) ++ exact title bytes, at most one")
